@@ -423,6 +423,16 @@ func (c *Cache) Snapshot() (*Cache, error) {
 	return c.snapshot, nil
 }
 
+// SnapshotRetained reports whether the cache holds a snapshot that has not been
+// written out yet: one that is being written, or one whose write failed and which
+// the next call to Snapshot hands out again. Such a snapshot contains nothing that
+// was written after it was first taken.
+func (c *Cache) SnapshotRetained() bool {
+	c.mu.RLock()
+	defer c.mu.RUnlock()
+	return c.snapshot != nil && c.snapshot.Size() > 0
+}
+
 // Deduplicate sorts the snapshot before returning it. The compactor and any queries
 // coming in while it writes will need the values sorted.
 func (c *Cache) Deduplicate() {
